@@ -63,7 +63,9 @@ func (cAddr) String() string  { return "192.0.2.9:50000" }
 
 func (c *checkConn) Read(b []byte) (int, error) { return 0, io.EOF }
 func (c *checkConn) Write(b []byte) (int, error) {
-	c.ga.CheckLive(b, "freed-buffer-handed-to-conn-write")
+	if !c.ga.CheckLive(b, "freed-buffer-handed-to-conn-write") && c.ga.FaultMode() {
+		return len(b), nil // the bytes are inaccessible
+	}
 	if c.closed > 0 {
 		return 0, net.ErrClosed
 	}
@@ -140,8 +142,8 @@ func (w *worker) consumeBody(body io.ReadCloser) {
 	}
 	if br, ok := body.(*nbhttp.BodyReader); ok {
 		for _, b := range br.RawBodyBuffers() {
-			w.ga.CheckLive(b, "freed-buffer-visible-to-handler")
-			if hc.Read == "raw" {
+			live := w.ga.CheckLive(b, "freed-buffer-visible-to-handler")
+			if hc.Read == "raw" && (live || !w.ga.FaultMode()) {
 				w.scanDelivered("body", b)
 				st.bodyRead += len(b)
 			}
